@@ -477,7 +477,7 @@ func c11sScenarios() []vh.SScenario {
 }
 
 func TestVerifC11S(t *testing.T) {
-	r := vres.Open("C11", "S")
+	r := vres.Open("C11", racePart("S"))
 	defer func() {
 		if err := r.Close(); err != nil {
 			t.Fatal(err)
